@@ -84,7 +84,7 @@ class Universe:
                 if b['directive'] == 'fn' and b['sidecar'] == '<generated>':
                     # helper brought in automatically (no sidecar): only its own panic-freedom is an obligation
                     oid = '%s.%s.nopanic(new helper)' % (fname[:-3], short_fn(fnpath))
-                    self.oblig[oid] = {'props': MODULE_PANIC_PROPS.get(fname, []), 'file': fname, 'fn': fnpath, 'kind': 'nopanic',
+                    self.oblig[oid] = {'props': MODULE_PANIC_PROPS.get(fname, []), 'file': fname, 'fn': fnpath, 'kind': 'helper',
                                        'text': 'new helper %s (no contract yet): its body must not panic' % fnpath}
                     self.fn_nopanic[(fname, last_seg(fnpath))] = oid
                     self.auto_helpers.setdefault(fname, []).append(last_seg(fnpath))
@@ -123,6 +123,38 @@ class Universe:
                 for oid, lines in seen.items():
                     t = ' '.join(re.sub(r'\s*//@.*$', '', l) for l in lines)
                     self.oblig[oid]['text'] = (self.oblig[oid]['text'] + ' ' + t).strip()[:600]
+        # every function of a file under contract that no sidecar block names is an uncontracted helper
+        for fname, blocks in info['blocks'].items():
+            if not any(b['directive'] == 'fn' for b in blocks):
+                continue
+            known = set(last_seg(split_args(b['args'])[0]) for b in blocks if b['directive'] == 'fn')
+            for (name, a, e) in info['files'][fname]['fnspans']:
+                if name not in known and name not in self.auto_helpers.get(fname, []):
+                    self.auto_helpers.setdefault(fname, []).append(name)
+
+    def for_property(self, pid):
+        return {k: v for k, v in self.oblig.items() if pid in v['props']}
+
+
+class FullUniverse:
+    """obligations of functions that had to be quarantined because their anchors were lost, read from the sidecars
+    directly (the woven crate no longer contains them)"""
+
+    def __init__(self, fns, uni):
+        self.oblig = dict(uni.oblig)
+        for fname in sorted(set(f for f, _ in fns)):
+            sc = os.path.join(VERIF, 'contracts', fname[:-3] + '.contract')
+            if not os.path.exists(sc):
+                continue
+            for b in weave.parse_sidecar(sc):
+                args = split_args(b.args)
+                if not args or (fname, args[0]) not in fns:
+                    continue
+                m = re.search(r'nopanic=([A-Z0-9,]+)', b.args)
+                if b.directive == 'fn' and m:
+                    self.oblig['%s.%s.nopanic' % (fname[:-3], short_fn(args[0]))] = {'props': m.group(1).split(','), 'file': fname, 'fn': args[0], 'kind': 'nopanic', 'text': 'panic-freedom of ' + args[0]}
+                for off, (oid, props) in b.tags.items():
+                    self.oblig.setdefault(oid, {'props': props, 'file': fname, 'fn': args[0], 'kind': b.directive, 'text': b.lines[off].strip()})
 
     def for_property(self, pid):
         return {k: v for k, v in self.oblig.items() if pid in v['props']}
@@ -190,6 +222,19 @@ def attribute(d, info, uni):
         desc['primary'] = {'woven': '%s:%d' % (s['file_name'], s['line_start']),
                            'where': ('%s:%d' % (loc['file'], loc['line'])) if loc['kind'] == 'src' else ('contract ' + loc['sidecar']),
                            'fn': loc['fn'], 'code': (s.get('text') or [{}])[0].get('text', '').strip()}
+    if prim:
+        sp, ploc = prim
+        hk = (ploc['file'], ploc['fn'])
+        if ploc['kind'] == 'src' and ploc['fn'] and hk not in uni.fn_nopanic \
+                and not any(f == ploc['file'] and last_seg(pth) == ploc['fn'] for (f, pth) in uni.contracted):
+            # a function no sidecar knows (e.g. a new method in a verified impl): treated as an uncontracted helper
+            oid = '%s.%s.nopanic(new helper)' % (ploc['file'][:-3], ploc['fn'])
+            uni.oblig.setdefault(oid, {'props': MODULE_PANIC_PROPS.get(ploc['file'], []), 'file': ploc['file'], 'fn': ploc['fn'], 'kind': 'helper',
+                                       'text': 'new helper %s (no contract yet)' % ploc['fn']})
+            uni.fn_nopanic[hk] = oid
+            uni.auto_helpers.setdefault(ploc['file'], []).append(ploc['fn'])
+        if ploc['kind'] == 'src' and hk in uni.fn_nopanic and uni.oblig[uni.fn_nopanic[hk]]['kind'] == 'helper':
+            return uni.fn_nopanic[hk], desc
     if not cands:
         # an untagged (auxiliary) clause of a contract block: the function's general obligation
         for sp in spans:
@@ -500,26 +545,47 @@ def decide(pid, uni, ana, known):
     # a caller of a NEW helper that has no contract yet cannot be verified against facts the helper hides: its failing
     # non-panic obligations are inconclusive, not violations
     hidden = {}
-    for fname, names in uni.auto_helpers.items():
-        try:
-            txt = open(os.path.join(REPO, 'src', fname)).read()
-        except OSError:
-            continue
-        for oid, descs in list(failed.items()):
-            o = obl[oid]
-            if o['file'] != fname or o['kind'] == 'nopanic' or not o['fn']:
-                continue
+    from rustscan import Source as _Src
+    _bodies = {}
+
+    def body_of(fname, fn_last):
+        key = (fname, fn_last)
+        if key not in _bodies:
             try:
-                from rustscan import Source
-                _, op, cl = Source(txt).find_fn(o['fn'])
-                body = txt[op:cl] if op else ''
-            except Exception:
-                body = ''
-            used = [n for n in names if re.search(r'\b%s\(' % re.escape(n), body)]
+                txt = open(os.path.join(REPO, 'src', fname)).read()
+                spans = [(n, a, e) for (n, a, e) in _Src(txt).fn_spans() if n == fn_last]
+                _bodies[key] = '\n'.join(txt[a:e] for (_, a, e) in spans)
+            except OSError:
+                _bodies[key] = ''
+        return _bodies[key]
+
+    for oid, descs in list(failed.items()):
+        # where did the failure occur?  (the failing location, not the function the clause belongs to)
+        used_all = []
+        every = True
+        for dsc in descs:
+            pr = dsc.get('primary') or {}
+            fname = os.path.basename((pr.get('woven') or '').split(':')[0])
+            fn_last = pr.get('fn') or (last_seg(obl[oid]['fn']) if obl[oid]['fn'] else None)
+            if not fname or not fn_last:
+                every = False
+                continue
+            names = uni.auto_helpers.get(fname, [])
+            body = body_of(fname, fn_last)
+            used = [n for n in names if n != fn_last and re.search(r'\b%s\(' % re.escape(n), body)]
             if used:
-                hidden[oid] = used
+                used_all += used
+            else:
+                every = False
+        if used_all and every:
+            hidden[oid] = sorted(set(used_all))
     for oid in hidden:
         failed.pop(oid, None)
+    # failures INSIDE a new helper that has no contract: it cannot rely on anything its callers know (invariants,
+    # argument ranges), so a failing check in it is undecided, never an alarm
+    helper_fail = [oid for oid in failed if obl[oid]['kind'] == 'helper']
+    for oid in helper_fail:
+        failed.pop(oid)
     # a failed panic-freedom obligation (real-line precondition / overflow) makes the verifier continue under an
     # impossible assumption, so other failures in the same function may be mere consequences of it.  They stay alarms for
     # the properties the panic itself violates; for any other property they are reported as undecided.
@@ -545,6 +611,8 @@ def decide(pid, uni, ana, known):
             new[oid] = descs
     # functions hosting this property's obligations must have been verified (vacuity / completeness guard)
     inconclusive = list(ana['inconclusive'])
+    for oid in helper_fail:
+        inconclusive.append('a check inside the new, uncontracted helper %s fails (%s): undecided' % (obl[oid]['fn'], oid))
     for oid, key in shadowed.items():
         inconclusive.append('obligation %s fails, but %s::%s also has a failing panic-freedom obligation that may be its cause: undecided for this property' % (oid, key[0], key[1]))
     for oid, used in hidden.items():
@@ -631,6 +699,12 @@ def main():
             print('INCONCLUSIVE: anchor lost: %s' % ex)
             sys.exit(2)
         uni = Universe(info)
+        uni_full = uni
+        pre_quarantined = set()
+        if info.get('auto_quarantined'):
+            # anchors were lost: the full universe (for "which properties are affected") comes from the unchanged sidecars
+            pre_quarantined = set(tuple(x.split('::', 1)) for x in info['auto_quarantined'])
+            uni_full = FullUniverse(pre_quarantined, uni)
         vr = run_verus(woven, tier, scratch)
         ana = analyse(info, uni, vr)
         # generic closure rule: a helper item (const / fn) that verified code uses but that no sidecar mentions is
@@ -693,6 +767,45 @@ def main():
                 except AnchorError as ex:
                     print('INCONCLUSIVE: anchor lost: %s' % ex)
                     sys.exit(2)
+        # quarantine: if the crate still does not compile and the errors sit inside contracted functions (their
+        # invariants mention locals that were renamed, loops were restructured, ...), those functions are cut out
+        # (external_body, contract assumed) so that everything else is still decided; their own obligations are
+        # undecided unless the witness finder produces a concrete failing run.
+        quarantined = set(pre_quarantined)
+        for _round in range(3):
+            if not ana['compile_error']:
+                break
+            q = set()
+            for d in vr['diags']:
+                if d.get('level') != 'error':
+                    continue
+                for sp in d.get('spans', []):
+                    loc = locate(info, os.path.basename(sp['file_name']), sp['line_start'], sp.get('column_start'))
+                    if not loc:
+                        continue
+                    if loc['kind'] == 'ins' and loc['block']['directive'] not in ('top', 'append', 'item', 'crate-attrs'):
+                        q.add((loc['file'], split_args(loc['block']['args'])[0]))
+                    elif loc['kind'] == 'src' and loc['fn']:
+                        for (f2, p2) in uni.contracted:
+                            if f2 == loc['file'] and last_seg(p2) == loc['fn']:
+                                q.add((f2, p2))
+            q = set(x for x in q if x in uni.contracted or any(x[0] == c[0] and x[1] == c[1] for c in uni.contracted)) - quarantined
+            if not q:
+                break
+            quarantined |= q
+            extra = {}
+            for (fname, path), blk in auto_items.items():
+                extra.setdefault(fname, []).append(blk)
+            try:
+                info = weave.weave_all(os.path.join(REPO, 'src'), os.path.join(VERIF, 'contracts'), os.path.join(VERIF, 'spec'), woven,
+                                       extra_blocks=extra, skip_hints_for=degraded, quarantine=quarantined)
+            except AnchorError as ex:
+                print('INCONCLUSIVE: anchor lost: %s' % ex)
+                sys.exit(2)
+            uni = Universe(info)
+            vr = run_verus(woven, tier, scratch)
+            ana = analyse(info, uni, vr)
+        degraded |= quarantined
         trusted, counts = scan_trusted(woven)
         known = load_known_findings()
         canary = None
@@ -735,9 +848,21 @@ def main():
                     print('KNOWN-FINDING: property=%s %s %s%s' % (pid, k['obligation'], k['text'][:400], note))
             for oid, (k, descs) in sorted(known_hit.items()):
                 print('KNOWN-FINDING: property=%s obligation=%s %s' % (pid, oid, k['text']))
+            q_obl = sorted(k for k, v in uni_full.for_property(pid).items() if (v['file'], v['fn']) in quarantined)
+            for k in q_obl:
+                obl.setdefault(k, uni_full.oblig[k])
             witness = None
-            if new and pid in WITNESS_PROPS and REPO == '/repo':
+            if (new or q_obl) and pid in WITNESS_PROPS and REPO == '/repo':
                 witness = find_witness(pid, tier)
+            if q_obl and witness and prc == 0 and not new:
+                rp = '-'
+                if not a.no_evidence:
+                    rp = write_replay(pid, q_obl[0], obl[q_obl[0]], [{'message': 'function quarantined: its annotations no longer apply to the changed code'}], vr, witness)
+                print('VIOLATION property=%s replay=%s stand-in=scenarios (the changed function %s can no longer be verified; concrete failing run: %s)' % (pid, rp, obl[q_obl[0]]['fn'], witness[:200]))
+                prc = 1
+            elif q_obl and prc == 0 and not new:
+                inconclusive = list(inconclusive) + ['%d obligation(s) of this property live in function(s) whose annotations no longer apply to the changed code (%s); no concrete failing run found: undecided'
+                                                     % (len(q_obl), ', '.join(sorted(set(obl[k]['fn'] for k in q_obl))))]
             degraded_only = []
             for oid, descs in sorted(new.items()):
                 in_degraded = (obl[oid]['file'], obl[oid]['fn']) in degraded
